@@ -45,6 +45,7 @@ def main():
                 rr.install()
                 rr.install_vec()
                 rr.install_rpd()
+                rr.install_iifd()
             ns = dict(base_ns)
             try:
                 exec(spec['code'], ns)
